@@ -410,6 +410,55 @@ pub fn run(ctx: &Ctx) -> Report {
         rep.merge(r);
         rep.require("multi_packet_commands", 3);
     }
+    // ---- a large single-packet command (64 KiB .. 1 MiB) right behind a command that arrived in
+    //      pieces: one read delivers the tail of the earlier command together with the whole large one
+    //      and nothing else, so the large command sits in the middle of the server's buffer and ends
+    //      where the buffered bytes end (the earlier command is at least twice as long, so that the
+    //      doubling buffer has room for such a read)
+    if !ctx.miri {
+        let n = ctx.n(60, 1500);
+        let r = par_cases(ctx, "C01", "large-behind-a-split-command", n, |rng, i, rep| {
+            let big = *rng.pick(&[65_536usize, 65_537, 70_000, 100_000, 200_000, 524_288]) + rng.below(3) as usize;
+            let prev = 2 * big + rng.range(10, 50_000) as usize;
+            let tail = *rng.pick(&[1usize, 2, 4, 5, 10, 1000, 4096]);
+            let lens = vec![rng.range(1, 40) as usize, prev, big, rng.range(1, 40) as usize, rng.range(1, 300) as usize];
+            let (cmds, scripts, sent) = build(ctx.seed ^ (i << 24) ^ 0x5151, &lens, rng);
+            let mut case = Case::new(cmds, scripts);
+            case.log_reads = false;
+            let (input, _) = case.input();
+            // packets in order; a long-data command contributes two packets (the data, then its execute)
+            let lay = layout(&input);
+            let bigs: Vec<usize> = lay.iter().enumerate().filter(|(_, (_, l))| *l >= 65_000).map(|(k, _)| k).collect();
+            if bigs.len() < 2 {
+                return;
+            }
+            let (poff, plen) = lay[bigs[0]];
+            let prev_end = poff + 4 + plen;
+            // the big command: every packet up to and including the second large one's command (for
+            // long data: its execute follows and is left to a later read)
+            let (boff, blen) = lay[bigs[1]];
+            let big_end = boff + 4 + blen;
+            let adjacent = boff == prev_end || lay[bigs[0] + 1..bigs[1]].iter().all(|(_, l)| *l < 64);
+            if !adjacent {
+                return;
+            }
+            case.sched = Sched { cuts: vec![prev_end - tail.min(plen), big_end], cycle: vec![] };
+            let obs = run_case(&case);
+            rep.evaluations += 1;
+            rep.counters.inc("large_commands_read_together_with_the_tail_of_their_predecessor");
+            rep.counters.class(format!("large command {} behind a split command, tail {}", len_class(big), tail));
+            rep.counters.add("commands_sent", sent.len() as u64);
+            let d = || J::obj().set("earlier_command_bytes", prev).set("large_command_bytes", big).set("tail_of_the_earlier_command_in_the_same_read", tail).set("sched", case.sched.describe()).set("outcome", obs.outcome.describe());
+            if i == 0 {
+                rep.sample(d());
+            }
+            check(&obs, &sent, rep, &d);
+        });
+        rep.merge(r);
+        if ctx.strict() {
+            rep.require("large_commands_read_together_with_the_tail_of_their_predecessor", 10);
+        }
+    }
     rep.merge(super::mega::run(ctx, "C01", 600, 20000));
     for k in ["end_in_header_1", "end_in_header_2", "end_in_header_3", "end_on_boundary", "end_in_payload", "reads_delivering_several_commands", "commands_compared"] {
         if ctx.strict() {
